@@ -42,7 +42,12 @@ impl Clock for RealTimeClock {
 pub struct GenericTokenBucket(TokenCount);
 
 impl GenericTokenBucket {
-    const MAX_TOKENS: u32 = 100;
+    /* The smallest amount ever requested is the minimum charge for one rate limited reply (200,
+     * see should_ratelimit()).  The bucket has to be able to hold at least that much, or a source
+     * can never be sent a reply no matter how long it has been idle.  This allows for a burst
+     * of five such replies.
+     */
+    const MAX_TOKENS: u32 = 1000;
     const TOKENS_PER_SECOND: u32 = 2;
 
     pub const fn new() -> Self {
